@@ -220,3 +220,68 @@ Proof.
   rewrite (H x (or_introl eq_refl)). vm_compute (SEVERITY_NULL <=? SEVERITY_USERMSG). apply IH.
   intros s Hs. apply H. right. exact Hs.
 Qed.
+
+(* ---- externally mapped instances ---- *)
+Lemma parts_fold_le parts : forall acc,
+  fold_left (fun acc p => if part_counts p then greater acc (fst p) else acc) parts acc <= acc.
+Proof.
+  induction parts as [|p r IH]; intros acc; cbn [fold_left]; [lia|].
+  destruct (part_counts p).
+  - specialize (IH (greater acc (fst p))). pose proof (greater_le_l acc (fst p)). lia.
+  - apply IH.
+Qed.
+
+Lemma parts_fold_keeps parts : forall acc p, In p parts -> part_counts p = true ->
+  fold_left (fun acc p => if part_counts p then greater acc (fst p) else acc) parts acc <= fst p.
+Proof.
+  induction parts as [|q r IH]; intros acc p Hin Hc; [contradiction|].
+  cbn [fold_left]. destruct Hin as [->|Hin].
+  - rewrite Hc. pose proof (parts_fold_le r (greater acc (fst p))). pose proof (greater_le_r acc (fst p)). lia.
+  - apply IH; assumption.
+Qed.
+
+(* what a part reported is never lost, unless it is exactly the tolerated case *)
+Lemma complex_sev_keeps own parts p : In p parts -> part_counts p = true -> complex_sev own parts <= fst p.
+Proof.
+  intros Hin Hc. unfold complex_sev.
+  pose proof (parts_fold_keeps parts SEVERITY_NULL p Hin Hc) as H.
+  unfold part_counts in Hc. apply andb_true_iff in Hc. destruct Hc as [Hlt _]. apply Z.ltb_lt in Hlt.
+  set (pe := fold_left _ parts SEVERITY_NULL) in *.
+  destruct (Z.ltb_spec pe SEVERITY_NULL) as [E|E]; [|lia].
+  pose proof (greater_le_r own pe). lia.
+Qed.
+
+Lemma complex_sev_own own parts : complex_sev own parts <= own.
+Proof.
+  unfold complex_sev. set (pe := fold_left _ parts SEVERITY_NULL).
+  destruct (pe <? SEVERITY_NULL); [apply greater_le_l|lia].
+Qed.
+
+(* the tolerated case is exactly: severity WARNING, and every attribute that complains is derived by another part *)
+Lemma part_tolerated_iff p : fst p < SEVERITY_NULL ->
+  (part_counts p = false <-> fst p = SEVERITY_WARNING /\ only_derived_values_given (snd p) = true).
+Proof.
+  intros Hlt. unfold part_counts. apply Z.ltb_lt in Hlt. rewrite Hlt. cbn [andb].
+  rewrite negb_false_iff, andb_true_iff, Z.eqb_eq. reflexivity.
+Qed.
+
+(* an error on an attribute that is not derived is never tolerated *)
+Lemma not_derived_never_tolerated attrs a : In a attrs -> fst a < SEVERITY_USERMSG -> snd a = false ->
+  only_derived_values_given attrs = false.
+Proof.
+  intros Hin Hs Hd. unfold only_derived_values_given.
+  apply andb_false_iff. left. apply not_true_iff_false. intros Hall.
+  rewrite forallb_forall in Hall. specialize (Hall a Hin).
+  apply Z.ltb_lt in Hs. rewrite Hs, Hd in Hall. discriminate.
+Qed.
+
+Lemma clean_parts_clean own parts : (forall p, In p parts -> fst p = SEVERITY_NULL) -> complex_sev own parts = own.
+Proof.
+  intros H. unfold complex_sev.
+  assert (E : fold_left (fun acc p => if part_counts p then greater acc (fst p) else acc) parts SEVERITY_NULL = SEVERITY_NULL).
+  { induction parts as [|p r IH]; [reflexivity|]. cbn [fold_left].
+    assert (Hp : part_counts p = false).
+    { unfold part_counts. rewrite (H p (or_introl eq_refl)). reflexivity. }
+    rewrite Hp. apply IH. intros q Hq. apply H. right. exact Hq. }
+  rewrite E. reflexivity.
+Qed.
